@@ -319,6 +319,18 @@ def concat(prog: Program, rep: Report):
             part = f[2][0][2]
         if part is None or a0 is None:
             ok, why = None, f"_call_getitem returns {show(t)[:100]}: accessor lookup of unrecognised shape"
+            # the part list may be chosen per mode: with balanced sampling it must be the declared parts (the round-robin and
+            # __len__ count self.datasets), whatever faster list the sequential path uses
+            fb = fa.prune({("self", "balanced_sampling"): True})
+            rb = [(n_, t_) for n_, t_ in fb.returns() if t_ is not None]
+            if len(rb) == 1 and rb[0][1][0] == "call":
+                fbt = rb[0][1][1]
+                if fbt[0] == "call" and fbt[1] == ("global", "getattr") and len(fbt[2]) == 2 and fbt[2][0][0] == "sub":
+                    lst = fbt[2][0][1]
+                    if lst[0] == "self" and lst[1] != "datasets":
+                        ok, why = False, (f"with balanced sampling the part is taken from self.{lst[1]}, not from self.datasets: the "
+                                          f"round-robin runs over another list of parts than the one the concat declares (nested "
+                                          f"concats are flattened away, their share of the samples changes)")
         else:
             problems = []
             unknown = []
@@ -414,6 +426,39 @@ def concat(prog: Program, rep: Report):
             want = ("call", ("call", ("global", "getattr"), (D, ("param", fi.params()[1])), ()), (), ())
             if vt == want:
                 src_ok = True
+            elif vt[0] == "call" and vt[1][0] == "global" and vt[1][1].rsplit(".", 1)[-1] in ("getall_as_list", "getall") and \
+                    vt[2] and vt[2][0] == D:
+                # the package's bulk helper, asked for the item whose name is the accessor name minus its 'getall_' prefix
+                call_ = v if isinstance(v, ast.Call) else None
+                key_e = None
+                if call_ is not None:
+                    key_e = next((k.value for k in call_.keywords if k.arg == "item"), call_.args[1] if len(call_.args) > 1 else None)
+                key_e = fa.expand(key_e, n) if key_e is not None else None
+                if isinstance(key_e, ast.Name):
+                    ds_ = [d_ for d_ in cfg.reaching().get(n, {}).get(key_e.id, ()) if cfg.nodes[d_].kind != "entry"]
+                    if len(ds_) == 1 and cfg.def_value(ds_[0], key_e.id) is not None:
+                        key_e = cfg.def_value(ds_[0], key_e.id)
+                pname = fi.params()[1]
+                verdict_ = None
+                if isinstance(key_e, ast.Subscript) and isinstance(key_e.value, ast.Name) and key_e.value.id == pname and \
+                        isinstance(key_e.slice, ast.Slice) and key_e.slice.upper is None and key_e.slice.lower is not None:
+                    lo_ = fa.sym.term(key_e.slice.lower, n)
+                    verdict_ = lo_ in (("const", len("getall_")), ("call", ("global", "len"), (("const", "getall_"),), ()))
+                elif isinstance(key_e, ast.Call) and isinstance(key_e.func, ast.Attribute) and isinstance(key_e.func.value, ast.Name) \
+                        and key_e.func.value.id == pname:
+                    if key_e.func.attr == "removeprefix":
+                        verdict_ = bool(key_e.args) and isinstance(key_e.args[0], ast.Constant) and key_e.args[0].value == "getall_"
+                    elif key_e.func.attr in ("lstrip", "strip", "rstrip", "replace"):
+                        verdict_ = False
+                        strip_why = (f"the item name is computed as {ast.unparse(key_e)}: {key_e.func.attr} removes characters, not the "
+                                     f"prefix - item names that begin with one of g/e/t/a/l/_ are mangled and their bulk accessor fails "
+                                     f"or answers for another item")
+                if verdict_ is True:
+                    src_ok = True
+                elif verdict_ is False:
+                    src_ok = "bad"
+                else:
+                    src_ok = None
             elif vt[0] == "var":
                 for d in vt[2]:
                     val = cfg.def_value(d, vt[1])
@@ -421,9 +466,14 @@ def concat(prog: Program, rep: Report):
                         src_ok = True
         entry = cfg.out_edge(LN, True)
         every = bool(adds) and (entry in adds or not cfg.reachable(entry, LN, avoid=set(adds), within=body))
-        ok = acc is not None and src_ok and every
-        why = "result += getattr(part, item)() for every part in self.datasets order" if ok else \
-            "the bulk result is not the concatenation of every part's bulk result in self.datasets order"
+        if src_ok is None and acc is not None and every:
+            ok, why = None, "every part contributes through a bulk helper whose item argument is not recognised: not decided"
+        elif src_ok == "bad":
+            ok, why = False, locals().get("strip_why", "the item name handed to the bulk helper is not the accessor name minus its prefix")
+        else:
+            ok = acc is not None and bool(src_ok) and every
+            why = "result += <bulk result of every part> in self.datasets order" if ok else \
+                "the bulk result is not the concatenation of every part's bulk result in self.datasets order"
     rep.decide(ok, "G5.concat-index", fi, "bulk", why, why, clause="C02.1")
     # translation summaries
     t1 = C.methods.get("_to_concat_idx")
